@@ -162,7 +162,7 @@ theorem wcost_upd_le {main : Nat → Main} {w : Nat} {m : Main} (h : wcost m ≤
 /-- Every event other than a new `dispatch` / `dispatch_blocking` call strictly decreases `rank`: from any
 reachable state at most `rank s` such events can follow. -/
 theorem rank_decreases {s s' : St} {e : Event} (h : Inv s) (he : e.external = false)
-    (hs : step? s e = some s') : rank s' < rank s := by
+    (hwk : e.isWake = false) (hs : step? s e = some s') : rank s' < rank s := by
   have hq := h.t.q
   have htask := cost_le_of_step hq he hs
   cases e with
@@ -245,6 +245,7 @@ theorem rank_decreases {s s' : St} {e : Event} (h : Inv s) (he : e.external = fa
       · rename_i hk
         exact wcost_upd_le (by simp [of_decide_eq_true hk, wcost]) w'
       · exact Nat.le_refl _
+  | remoteWake t => simp [Event.isWake] at hwk
   | die w p =>
     obtain ⟨hlt', hil, rfl⟩ := die?_some hs
     have hw4 : wcost (s.main w) = 4 := by cases hm : s.main w <;> simp [hm, Main.inLoop, wcost] at hil ⊢
@@ -289,17 +290,35 @@ theorem rank_decreases {s s' : St} {e : Event} (h : Inv s) (he : e.external = fa
     exact rank_lt_of rfl rfl htask (fun _ _ => Nat.le_refl _) id (by simp) id
       (Or.inr (Or.inr (Or.inr (Or.inl ⟨by simp [hj], by simp⟩))))
 
-/-- a schedule without new dispatch calls is at most `rank s` events long -/
+/-- a wake-up leaves the variant alone -/
+theorem rank_wake {s s' : St} {t : Nat} (hs : step? s (.remoteWake t) = some s') : rank s' = rank s := by
+  obtain ⟨_, rfl⟩ := remoteWake?_some hs
+  rfl
+
+/-- the events of a schedule that do work (everything but wake-ups) -/
+def workEvents (evs : List Event) : List Event := evs.filter fun e => !e.isWake
+
+/-- a schedule without new dispatch calls does at most `rank s` events of work, however many wake-ups are
+interspersed -/
 theorem internal_run_bounded {s s' : St} {evs : List Event} (h : Inv s)
     (hint : ∀ e, e ∈ evs → e.external = false) (hr : run? s evs = some s') :
-    evs.length + rank s' ≤ rank s := by
+    (workEvents evs).length + rank s' ≤ rank s := by
   induction evs generalizing s with
-  | nil => simp [run?] at hr; subst hr; simp
+  | nil => simp [run?] at hr; subst hr; simp [workEvents]
   | cons e es ih =>
     obtain ⟨s1, h1, h2⟩ := run?_cons hr
-    have hd := rank_decreases h (hint e (by simp)) h1
     have := ih (h.step h1) (fun e' he' => hint e' (by simp [he'])) h2
-    simp only [List.length_cons]; omega
+    cases hwk : e.isWake with
+    | true =>
+      have hr : rank s1 = rank s := by
+        cases e <;> simp [Event.isWake] at hwk
+        exact rank_wake h1
+      simp only [workEvents, List.filter_cons, hwk] at this ⊢
+      simp at this ⊢; omega
+    | false =>
+      have hd := rank_decreases h (hint e (by simp)) hwk h1
+      simp only [workEvents, List.filter_cons, hwk] at this ⊢
+      simp at this ⊢; omega
 
 /-! ### no deadlock once `join` was called -/
 
